@@ -241,7 +241,7 @@ func e12Case(seed uint64, tr, victim int, moment, mech string, race bool) Case {
 func init() {
 	register("E12", func(tier string, seed uint64) []Case {
 		var cases []Case
-		nt := tierPick(tier, 6, 250)
+		nt := tierPick(tier, 6, 1500)
 		for tr := 0; tr < nt; tr++ {
 			size := e12TreeSize(seed, tr)
 			for v := 0; v < size; v++ {
